@@ -1114,22 +1114,26 @@ func (c *conn) uniqueConflict(tx *txn, t *table, vals []Value, self *row) (*row,
 			if r == self {
 				continue
 			}
-			v := visible(tx, r)
-			if v == nil && r.hasPending && r.owner != tx {
-				v = r.pending // a concurrent uncommitted insert also blocks/conflicts
+			// the version this transaction sees, and the uncommitted version of another transaction (insert
+			// or update of the indexed column): InnoDB makes the writer wait for that transaction
+			cands := [][]Value{visible(tx, r)}
+			if r.hasPending && r.owner != tx && r.pending != nil {
+				cands = append(cands, r.pending)
 			}
-			if v == nil {
-				continue
-			}
-			same := true
-			for _, ci := range ix.cols {
-				if v[ci] == nil || compareValues(v[ci], vals[ci]) != 0 {
-					same = false
-					break
+			for _, v := range cands {
+				if v == nil {
+					continue
 				}
-			}
-			if same {
-				return r, ix.name
+				same := true
+				for _, ci := range ix.cols {
+					if v[ci] == nil || compareValues(v[ci], vals[ci]) != 0 {
+						same = false
+						break
+					}
+				}
+				if same {
+					return r, ix.name
+				}
 			}
 		}
 	}
@@ -1350,7 +1354,13 @@ func rowsEqual(a, b []Value) bool {
 // applyUpdate replaces the visible version of r by nv (handles primary-key changes).
 func (c *conn) applyUpdate(tx *txn, t *table, r *row, old, nv []Value) ([]Write, error) {
 	if x, name := c.uniqueConflict(tx, t, nv, r); x != nil {
-		return nil, myErr(1062, "Duplicate entry for key '%s.%s'", t.name, name)
+		// wait for whoever holds that row, then look again
+		if err := c.srv.lockRow(tx, x); err != nil {
+			return nil, err
+		}
+		if x2, _ := c.uniqueConflict(tx, t, nv, r); x2 != nil {
+			return nil, myErr(1062, "Duplicate entry for key '%s.%s'", t.name, name)
+		}
 	}
 	newKey := pkKey(t, nv)
 	if len(t.pk) == 0 || newKey == r.key {
